@@ -133,7 +133,7 @@ PROPS['C01'] = dict(layers=[D(P.p_c01, profile=dict(faults=0.4))], planned=['C01
 PROPS['C02'] = dict(layers=[D(P.p_c02_c03, P.p_c02_retry, P.p_c02_wire, profile=dict(faults=0.5))], planned=['C02_sound end-to-end (102 ⇒ every target commanded and answered ok)', 'C02_cli'])
 PROPS['C03'] = dict(layers=[D(P.p_c02_c03, P.p_c03_justified, profile=dict(faults=0.5))], planned=['C03_justified over whole runs', 'C03_no_memory'])
 PROPS['C04'] = dict(layers=[D(P.p_c04, P.p_c04_quit, P.p_c04_deadline, P.p_c15)], planned=['C04_one_reply', 'C04_no_wedge', 'C04_tenure', 'C04_bound_partial'])
-PROPS['C06'] = dict(layers=[D(P.p_c04, P.p_c15, P.p_f23, profile=dict(fatal=0.03, faults=1.5, maxclients=6), deaths=client_deaths), D(P.p_c04, P.p_c15, profile=dict(fatal=0.02, faults=0.1, quit=0.003, maxclients=3, calm=0.05), deaths=client_deaths, quick=(8, 2500), thorough=(32, 6000))], planned=['C06_total over lines >= CP_LINEMAX (203)', 'C06_reap'])
+PROPS['C06'] = dict(layers=[D(P.p_c04, P.p_c15, P.p_c06_served, P.p_f23, profile=dict(fatal=0.03, faults=1.5, maxclients=6), deaths=client_deaths), D(P.p_c04, P.p_c15, profile=dict(fatal=0.02, faults=0.1, quit=0.003, maxclients=3, calm=0.05), deaths=client_deaths, quick=(8, 2500), thorough=(32, 6000))], planned=['C06_total over lines >= CP_LINEMAX (203)', 'C06_reap'])
 PROPS['C07'] = dict(layers=[D(P.p_c20, profile=dict(garbage=0.08, pF6=0.03, calm=0.25), deaths=device_deaths)], planned=['C07_no_abort assembled over whole runs', 'xmatch_used under ExpectBeforeSet'])
 PROPS['C08'] = dict(layers=[D(P.p_c08, P.p_c01, profile=dict(faults=0.5))], planned=['composition of the refinement over postPoll sequences with reconnects'])
 PROPS['C09'] = dict(layers=[D(P.p_c09_write, P.p_c09_read, profile=dict(garbage=0.05))], planned=['cbuf_refines (index-level model of cbuf.c)', 'buffer capacity / overflow_drop'])
